@@ -221,8 +221,9 @@ def run_tlc(
         for line in out.splitlines():
             if "is violated" in line and line.startswith("Error:"):
                 violated.append(line.split("Error:")[1].strip())
-    if "Error: Temporal properties were violated" in out:
+    if "Error: Temporal properties were violated" in out or re.search(r"Error: Temporal property \S+ was violated", out):
         violated.append("Liveness")
+        violated += re.findall(r"Error: Temporal property (\S+) was violated", out)
     if "Error: Deadlock reached" in out:
         violated.append("Deadlock")
     if "Error: Postcondition" in out and "is false" in out:
